@@ -190,6 +190,14 @@ def run(chk):
                     chk.nontriv((r.id, idx))
                 if len(chk.samples) < 2 and len(faces) >= 8:
                     chk.sample({'op': 'withfaces', 'family': r.family, 'cell': idx, 'V': len(verts), 'F': len(faces), 'first_face': faces[0][3]})
+        if t.peek() == 'SLOTS':
+            t.next()
+            nbad = t.int()
+            if nbad:
+                chk.violation('impl-vs-oracle', 'after with_faces() %d generator(s) are not found at their own index: get_cell_at(i) is missing, present for an unselected generator or returns the cell of another generator (record %d, %s, mask %s)'
+                              % (nbad, r.id, r.family, ''.join('1' if m else '0' for m in inp.mask) if inp.mask is not None else '-'), rp, key='slots')
+            else:
+                chk.extra_cov['slot_checks'] = chk.extra_cov.get('slot_checks', 0) + 1
     chk.extra_cov['records_with_panic_skipped_see_C05'] = npanic
 
     # ---- one cell with more than ten thousand faces: the invariants evaluated by the harness on the implementation's output
